@@ -64,7 +64,19 @@ def h_isnan(x):
     return bool(SymBool(z3.fpIsNaN(x.z))) if isinstance(x, SymFloat) else math.isnan(x)
 
 
-HOOKS = {"isinstance": h_isinstance, "type": h_type, "str": h_str, "isnan": h_isnan}
+def h_copysign(m, x):
+    import math
+    if isinstance(x, SymFloat) and isinstance(m, (int, float)):
+        mag = abs(float(m))
+        return SymFloat(z3.If(x.sign_bit(), z3.FPVal(-mag, z3.Float64()), z3.FPVal(mag, z3.Float64())))
+    return math.copysign(m, x)
+
+
+def h_signbit_str(x):
+    return h_str(x)
+
+
+HOOKS = {"isinstance": h_isinstance, "type": h_type, "str": h_str, "isnan": h_isnan, "copysign": h_copysign}
 FUNCS = ["constant_key", "inner_constant_key", "is_neg_zero", "replace_nan"]
 
 
@@ -190,6 +202,9 @@ def _register_eq():
                 spec = z3.And(same_val, same_ov)
                 ctx.prove("eq.iff_same_override_and_same_constant_key", spec if eq else z3.Not(spec))
                 ctx.prove("eq.symmetric", z3.BoolVal(bool(y.__eq__(x)) == eq))
+                # the very same constant object under two overrides (decoded vs normalized data share their constants)
+                z = K(va, ob)
+                ctx.prove("eq.same_constant_object_different_override_is_unequal", z3.BoolVal(bool(x.__eq__(z))) == (z3.BoolVal(oa is None and ob is None) if (oa is None or ob is None) else (oa.z == ob.z)))
                 ctx.prove("eq.reflexive", z3.BoolVal(bool(x.__eq__(K(va, oa)))))
                 # hash: computed from exactly the pair that __eq__ compares
                 del log[:]
